@@ -13,15 +13,16 @@ from .tlaval import parse_state
 
 
 def protocols(run):
-    res = T.run_tlc("Reload", T.cfg(constants={"LoadDrops": "TRUE"}, invariants=["TypeOK", "ReloadPreservesFunction", "LoadInvalidates"]), dump=True, name="reload", workers=4)
+    res = T.run_tlc("Reload", T.cfg(constants={"LoadDrops": "TRUE", "ConvertDrops": "TRUE"}, invariants=["TypeOK", "ReloadPreservesFunction", "LoadInvalidates"]), dump=True, name="reload", workers=4)
     run.model_must_hold(res, "Reload")
-    run.add_tlc(res, "Reload (loading drops derived state)", require_actions=["Train", "UseSrc", "BuildDst", "EvalFirst", "DoUseDst", "DoLoad", "Retrain", "Compare"])
-    bad = T.run_tlc("Reload", T.cfg(constants={"LoadDrops": "FALSE"}, invariants=["ReloadPreservesFunction"]), coverage=False, name="reload_keep", workers=4)
-    if bad.ok:
-        raise T.MachineryError("Reload.tla does not discriminate: a design that keeps derived state across a load satisfies ReloadPreservesFunction")
-    run.states += bad.distinct
-    run.transitions += bad.generated
-    run.extra.setdefault("counterexamples_derived_for_broken_designs", []).append({"design": "derived state kept across load_state_dict", "violated": bad.violated})
+    run.add_tlc(res, "Reload (loading drops derived state)", require_actions=["Train", "UseSrc", "BuildDst", "EvalFirst", "DoUseDst", "DoLoad", "Retrain", "DoUseLoaded", "Convert", "Compare"])
+    for label, consts in (("derived state kept across load_state_dict", {"LoadDrops": "FALSE", "ConvertDrops": "TRUE"}), ("derived tensors neither converted nor dropped by .double()", {"LoadDrops": "TRUE", "ConvertDrops": "FALSE"})):
+        bad = T.run_tlc("Reload", T.cfg(constants=consts, invariants=["ReloadPreservesFunction"]), coverage=False, name="reload_broken", workers=4)
+        if bad.ok:
+            raise T.MachineryError("Reload.tla does not discriminate: the design '%s' satisfies ReloadPreservesFunction" % label)
+        run.states += bad.distinct
+        run.transitions += bad.generated
+        run.extra.setdefault("counterexamples_derived_for_broken_designs", []).append({"design": label, "violated": bad.violated})
     out = []
     with open(res.dump) as f:
         txt = f.read()
@@ -29,7 +30,7 @@ def protocols(run):
         if '/\\ phase = "compared"' not in blk:
             continue
         st = parse_state(blk)
-        out.append({"src": sorted(str(v) for v in st["srcHist"]), "eval_first": bool(st["evalFirst"]), "used": sorted(str(v) for v in st["dstUsed"]), "route": str(st["route"]), "retrained": bool(st["retrained"])})
+        out.append({"src": sorted(str(v) for v in st["srcHist"]), "eval_first": bool(st["evalFirst"]), "used": sorted(str(v) for v in st["dstUsed"]), "route": str(st["route"]), "retrained": bool(st["retrained"]), "used_after": sorted(str(v) for v in st["usedAfter"]), "converted": bool(st["converted"])})
     return out
 
 
@@ -118,17 +119,51 @@ def run_protocol(torch, e, proto, seed):
     if proto["retrained"]:
         dst.train()
     dst.eval()
-    # the source is probed from empty caches, the destination as the load left it: on a correct tree both then
-    # fill their caches along the same sequence of calls
+    # the source starts from empty caches and then makes the same evaluation-mode calls as the loaded model, so
+    # that on a correct tree both fill their caches along the same sequence of calls (a cached logabsdet that
+    # was computed together with the inverse may differ in the last bit from one computed with the weight)
     for mod in src.modules():
         if isinstance(mod, Linear):
             mod.cache.invalidate()
+    for k in proto.get("used_after", []):
+        ops = _ops(e)
+        op = ops[0] if k == "fwd" else ("inverse" if "inverse" in ops else ("sample" if "sample" in ops else ops[0]))
+        # (before a conversion only the loaded model is used: the reference then starts from empty caches,
+        # which is what a conversion that drops - or converts - derived tensors amounts to)
+        for m_ in ((dst,) if proto.get("converted") else (src, dst)):
+            try:
+                with torch.no_grad():
+                    _call(torch, m_, e, op, x, y, c, c1)
+            except Exception:  # noqa
+                pass
+    if proto.get("converted"):
+        # C19's leg: the reference is the loaded model's own copy, taken before the conversion with its weight
+        # caches emptied (so a defect of the load itself - C15's business - cannot show here); both go to double
+        # precision and the probes then use double inputs
+        import copy
+
+        src = copy.deepcopy(dst)
+        for mod in src.modules():
+            if isinstance(mod, Linear):
+                mod.cache.invalidate()
+        try:
+            src, dst = src.double(), dst.double()
+        except Exception as ex:  # noqa
+            return "conversion to double raised %r" % (ex,)
+        data = tuple(t_.double() if t_ is not None and torch.is_floating_point(t_) else t_ for t_ in data)
     a, b = probe(torch, src, e, data), probe(torch, dst, e, data)
+
+    def close(r1, r2):
+        # after a conversion a design may convert its derived tensors instead of recomputing them: they then
+        # carry single-precision rounding, which is not a different function
+        return len(r1) == len(r2) and all(p.shape == q.shape and p.dtype == q.dtype and torch.allclose(p, q, rtol=1e-4, atol=1e-4, equal_nan=True) for p, q in zip(r1, r2))
+
     for (o1, r1), (o2, r2) in zip(a, b):
-        ok = (r1 == r2) if isinstance(r1, str) or isinstance(r2, str) else same_result(r1, r2)
+        ok = (r1 == r2) if isinstance(r1, str) or isinstance(r2, str) else (close(r1, r2) if proto.get("converted") else same_result(r1, r2))
         if not ok:
             if isinstance(r1, str) or isinstance(r2, str):
-                return "%s: source %s, reloaded model %s" % (o1, r1 if isinstance(r1, str) else "returns", r2 if isinstance(r2, str) else "returns")
+                who = ("copy converted from empty caches", "used-then-converted model") if proto.get("converted") else ("source", "reloaded model")
+                return "%s: %s %s, %s %s" % (o1, who[0], r1 if isinstance(r1, str) else "returns", who[1], r2 if isinstance(r2, str) else "returns")
             d = max(float((p - q).abs().max()) if p.shape == q.shape and p.numel() else float("inf") for p, q in zip(r1, r2))
             return "%s differs (max |diff| %.3g%s)" % (o1, d, ", dtypes %s vs %s" % (r1[0].dtype, r2[0].dtype) if r1[0].dtype != r2[0].dtype else "")
     return None
@@ -158,19 +193,24 @@ def task(t):
                 continue
             out["n"] += 1
             if r is not None:
-                out["fails"].append({"kind": "reload", "name": name, "proto": proto, "seed": seed, "detail": "%s, protocol source %s / destination%s%s / route %s%s: %s" % (name, proto["src"] or ["fresh"], " eval() first" if proto["eval_first"] else "", (" used " + ",".join(proto["used"])) if proto["used"] else "", proto["route"], " / train(), eval() after the load" if proto["retrained"] else "", r)})
+                out["fails"].append({"kind": "reload_converted" if proto.get("converted") else "reload", "name": name, "proto": proto, "seed": seed, "detail": "%s, protocol source %s / destination%s%s / route %s%s%s%s: %s" % (name, proto["src"] or ["fresh"], " eval() first" if proto["eval_first"] else "", (" used " + ",".join(proto["used"])) if proto["used"] else "", proto["route"], " / train(), eval() after the load" if proto["retrained"] else "", (" / then used " + ",".join(proto["used_after"])) if proto.get("used_after") else "", " / then .double()" if proto.get("converted") else "", r)})
                 break
     return out
 
 
-def run_leg(run):
+def run_leg(run, converted=False):
+    """converted=False: C15's protocols (the reloaded model against the saved one, bit for bit);
+    converted=True: C19's protocols (the loaded, used model converted to double precision against its own
+    copy converted from empty caches)."""
     from . import zoo
 
     thorough = run.tier == "thorough"
-    protos = protocols(run)
+    allp = protocols(run)
+    protos = [p for p in allp if p["converted"] == converted]
+    run.extra["reload_protocols_in_spec"] = len(allp)
     names = [e.name for e in zoo.entries() if not e.has("umnn")]
     run.extra["reload_protocols"] = len(protos)
-    per_model = None if thorough else 14
+    per_model = (60 if thorough else 6) if converted else (300 if thorough else 14)
     nproc = 8
     fails, skipped = [], []
     for out in pmap(task, [(names[i::nproc * 2], protos, run.seed, per_model) for i in range(nproc * 2) if names[i::nproc * 2]], nproc):
@@ -179,7 +219,7 @@ def run_leg(run):
         skipped += out["skipped"]
     run.extra["reload_skipped"] = skipped[:10]
     for p in protos:
-        run.nontrivial.add(("reload", tuple(p["src"]), p["eval_first"], tuple(p["used"]), p["route"], p["retrained"]))
+        run.nontrivial.add(("reload", tuple(p["src"]), p["eval_first"], tuple(p["used"]), p["route"], p["retrained"], tuple(p["used_after"]), p["converted"]))
     if protos:
         run.sample({"reload_protocol": protos[len(protos) // 2]})
     return fails
